@@ -87,6 +87,9 @@ def main():
         jobs += file_common.c10_jobs(info, only)
     except ImportError:
         pass
+    if not only:
+        from checks import c09
+        jobs.append(core.borrow(c09.ohb_read_job(), 'C09', 'C10'))     # the resynchronisation loop terminates and stays in bounds on arbitrary bytes
     rep = core.Report('C10')
     rep.assumptions = ['stream content and declared end are arbitrary (hostile contract); UB inside zlib, libstdc++ and std::fstream is not covered',
                        'allocation fails only by raising the std exception (vec model: any request above a symbolic cap may fail)',
